@@ -12,6 +12,8 @@ import (
 
 	_ "vh/gram"
 	_ "vh/h15"
+	_ "vh/hpos"
+	_ "vh/hrd"
 	_ "vh/hself"
 )
 
